@@ -95,8 +95,33 @@ def generate(rng, tier):
             for p in rng.sample(names, min(2, len(names))):
                 if "|" not in p:
                     lines.append("PO 0 " + hx(p))
+            # the same from a starting level other than 0 (cfg_print_indent / cfg_opt_print_indent): every level is two blanks
+            if rng.random() < 0.5:
+                lines.append("PI 0 %d" % rng.choice([1, 2, 7, 8, 9, 10, 16, 17, 33, 64]))
+                tn = [p for p in names if "|" not in p]
+                if tn:
+                    lines.append("POI 0 %s %d" % (hx(rng.choice(tn)), rng.choice([1, 8, 9, 15, 16, 17, 40])))
             cases.append(Case("f%d" % n, lines, {"filters": filters, "names": names, "early": len(early),
                                                   "printcb": [x.encode() for x in sorted(pcb)]}))
+            n += 1
+    # sections nested far deeper than any random schema: level k is indented by 2k blanks, for every k
+    for depth in (9, 12, 20, 35):
+        inner = [Opt("v%d" % depth, "int", 0, depth), Opt("s%d" % depth, "str", LIST, [b"a", b"b"])]
+        for d in range(depth - 1, -1, -1):
+            flags = (MULTI | TITLE) if d % 3 == 1 else (MULTI if d % 3 == 2 else 0)
+            inner = [Opt("v%d" % d, "int", 0, d), Opt("sec%d" % d, "sec", flags, None, "-", inner), Opt("w%d" % d, "bool", 0, True)]
+        text, close = b"", b""
+        for d in range(depth):
+            text += b"v%d = %d sec%d %s{ " % (d, 100 + d, d, b"t " if d % 3 == 1 else b"")
+            close += b"} w%d = false " % d
+        text += b"v%d = 7 " % depth + close + b"\n"
+        names = [o.name for _p, o in gen.all_opts(inner)]
+        for filt in ([], [(".", ["w3", "v%d" % depth])]):
+            lines = schema_lines(inner) + ["X 0 0", "PB 0 " + hx(text)]
+            for sp, hide in filt:
+                lines.append("FL 0 . " + " ".join(hx(h) for h in hide))
+            lines += ["D 0", "PR 0", "PI 0 3", "PI 0 9", "POI 0 %s 11" % hx("sec0")]
+            cases.append(Case("f%d" % n, lines, {"filters": filt, "names": names, "early": 0, "printcb": []}))
             n += 1
     return cases
 
